@@ -418,6 +418,9 @@ class Folder:
             cont = self.expr(t.value)
             if isinstance(t.slice, ast.Slice):
                 k = slice(*(self.expr(x) if x is not None else None for x in (t.slice.lower, t.slice.upper, t.slice.step)))
+            elif isinstance(t.slice, ast.Tuple) and any(isinstance(x, ast.Slice) for x in t.slice.elts):
+                k = tuple(slice(*(self.expr(y) if y is not None else None for y in (x.lower, x.upper, x.step))) if isinstance(x, ast.Slice) else self.expr(x)
+                          for x in t.slice.elts)
             else:
                 k = self.expr(t.slice)
             if isinstance(cont, (dict, list)) or getattr(cont, "_sa_model", False) and hasattr(cont, "__setitem__"):
@@ -520,6 +523,8 @@ class Folder:
             if isinstance(base, sp.Basic) and e.attr in ("real", "imag"):
                 return sp.re(base) if e.attr == "real" else sp.im(base)
             if isinstance(base, (sp.MatrixBase,)) and e.attr in ("T", "H", "shape", "rows", "cols"):
+                return getattr(base, e.attr)
+            if isinstance(base, (_np.finfo, _np.iinfo)) and e.attr in ("eps", "max", "min", "tiny", "bits"):
                 return getattr(base, e.attr)
             if isinstance(base, (_np.ndarray, _np.generic)) and e.attr in ("shape", "T", "real", "imag", "size", "ndim", "dtype"):
                 return getattr(base, e.attr)          # concrete numpy value (allocated by the folded code with literal extents)
@@ -659,7 +664,7 @@ class Folder:
         logical_and logical_xor where unique delete abs absolute real imag conj conjugate transpose dot matmul kron mod arange linspace argsort sort count_nonzero isclose
         allclose array_equal round around floor ceil sqrt exp log2 log max min amax amin argmax argmin cumsum diag trace einsum tensordot reshape ravel flip roll outer
         zeros_like ones_like copy nonzero isin append insert squeeze expand_dims tile repeat full triu tril sign bitwise_xor bitwise_and bitwise_or left_shift right_shift
-        shape ndim size power multiply add subtract divide floor_divide equal not_equal greater less ix_ meshgrid flatnonzero searchsorted diff cumprod mean""".split())
+        shape ndim size finfo iinfo arccos arcsin arctan arctan2 angle cos sin tan cosh sinh tanh power multiply add subtract divide floor_divide equal not_equal greater less ix_ meshgrid flatnonzero searchsorted diff cumprod mean""".split())
     _NP_METHODS = frozenset("""astype copy sum prod max min any all reshape transpose flatten ravel dot tolist conj conjugate nonzero argsort item squeeze round mean
         argmax argmin cumsum trace diagonal swapaxes take repeat""".split())
     _NP_DTYPES = {"complex64": _np.complex64, "complex128": _np.complex128, "complex": _np.complex128, "complex_": _np.complex128, "float64": _np.float64,
@@ -706,6 +711,10 @@ class Folder:
                 if extra not in ("reduce", "outer", "accumulate"):
                     return _NO
                 target = getattr(target, extra, None)
+            recv = None
+        elif parts[0] in ("np", "numpy") and len(parts) == 3 and parts[1] == "linalg" and parts[2] in ("norm", "det", "inv", "eigh", "eigvalsh", "eigvals", "multi_dot", "matrix_rank", "solve") and \
+                isinstance(self.env.get(parts[0], self.resolver(parts[0]) if self.resolver else None), Opaque):
+            target = getattr(_np.linalg, parts[2])
             recv = None
         elif isinstance(e.func, ast.Attribute) and e.func.attr in self._NP_METHODS:
             try:
@@ -838,6 +847,8 @@ class Folder:
             if rel is sp.false:
                 return False
             raise Undecidable(f"symbolic comparison {norm(node)}")
+        if isinstance(a, (Opaque, Rec)) or isinstance(b, (Opaque, Rec)):
+            raise Undecidable(f"ordering comparison {norm(node)} with an opaque value")
         return {ast.Lt: lambda: a < b, ast.LtE: lambda: a <= b, ast.Gt: lambda: a > b, ast.GtE: lambda: a >= b}[type(op)]()
 
     def call_funcval(self, fv: "FuncVal", args, kwargs):
@@ -1138,6 +1149,8 @@ class Folder:
             return Opaque("super()")          # calls through super() reach base-class code that is not folded: they return opaque values and change nothing
         if fn == "bool" and len(args) <= 1 and not kwargs:
             return self.truth(args[0], e) if args else False
+        if fn == "complex" and 1 <= len(args) <= 2 and not kwargs and all(isinstance(a, (int, float, complex, _np.generic)) and not isinstance(a, bool) for a in args):
+            return complex(*args)
         if fn in ("dict", "list", "set", "tuple", "sorted", "len", "str", "frozenset", "reversed", "range", "abs", "int", "float", "max", "min", "sum", "zip", "enumerate") and not kwargs:
             if fn in ("int", "float") and len(args) == 1 and isinstance(args[0], str):
                 try:
@@ -1172,6 +1185,12 @@ class Folder:
                 return v.real
             if isinstance(v, sp.Basic):
                 return v if v.is_real else sp.re(v)
+        if getattr(self, "real_arrays", False) and fn.split(".")[0] in ("np", "numpy", "math", "cmath") and fn.split(".")[-1] in ("exp", "cos", "sin", "sqrt") and len(args) == 1 and \
+                isinstance(args[0], (int, float, complex, _np.generic, _np.ndarray)) and not isinstance(args[0], bool):
+            try:
+                return getattr(_np, fn.split(".")[-1])(args[0])          # numeric mode: concrete numbers stay numbers
+            except (ValueError, TypeError) as ex:
+                raise Raised(type(ex).__name__, e)
         if fn in ("np.exp", "numpy.exp", "math.exp", "exp") and len(args) == 1:
             return sp.exp(sp.sympify(args[0]))
         if fn in ("np.cos", "np.sin", "math.cos", "math.sin", "np.sqrt", "math.sqrt", "sqrt", "cos", "sin") and len(args) == 1 and \
@@ -1237,6 +1256,8 @@ class Folder:
             if isinstance(obj, list) and m == "extend" and len(args) == 1:
                 obj.extend(args[0])
                 return None
+            if isinstance(obj, (int, float, complex)) and not isinstance(obj, bool) and m in ("is_integer", "conjugate", "bit_length") and not kwargs:
+                return getattr(obj, m)(*args)
             if isinstance(obj, ClassVal) and m in obj.methods:
                 node = obj.methods[m]
                 decos = {ast.unparse(d) for d in getattr(node, "decorator_list", [])}
